@@ -255,7 +255,7 @@ def singleOk (cs : List (Occur × Query)) (msm : Nat) : Bool :=
   | _ => true
 
 def leafOk : Leaf → Bool
-  | .phrase _ terms slop => decide (terms.length ≤ 2) || slop == 0
+  | .phrase _ terms slop => slop == 0 || terms.length == 2
   | _ => true
 
 mutual
